@@ -16,3 +16,18 @@ type (
 	Zdate    = air.Zdate
 	Defaults = air.Defaults
 )
+
+// More of the aircraftlib test schema, for the pogs stream of the harness.
+type PlaneBase = air.PlaneBase
+
+const (
+	ZTypeID         = air.Z_TypeID
+	DefaultsTypeID  = air.Defaults_TypeID
+	PlaneBaseTypeID = air.PlaneBase_TypeID
+)
+
+var (
+	NewRootZ         = air.NewRootZ
+	NewRootDefaults  = air.NewRootDefaults
+	NewRootPlaneBase = air.NewRootPlaneBase
+)
